@@ -56,6 +56,12 @@ func udpView(v reflect.Value, prefix string, out map[string]string) {
 		case reflect.Map:
 			out[prefix+f.Name] = fmt.Sprint(fv.Interface()) // fmt prints maps with sorted keys
 		default:
+			if (f.Name == "Index" || f.Name == "Parent") && fv.Kind() == reflect.Int32 && (fv.Int() == 0 || fv.Int() == -1) {
+				// "no value": a freshly constructed pack says 0, a recycled one -1 (what Clear sets); formats that do
+				// not carry the field leave it as they found it
+				out[prefix+f.Name] = "unset"
+				continue
+			}
 			out[prefix+f.Name] = fmt.Sprintf("%v", fv.Interface())
 		}
 	}
